@@ -23,7 +23,9 @@ func InitSequence(envs commservices.Environments) (reader io.Reader, err error) 
 		return strings.NewReader(initCode), nil
 	}
 	for key, value := range envs.All() {
-		initCode += key + "=$(cat <<'" + eofTag + "'\n" + value + "\n" + eofTag + "\n)\n"
+		// inside single quotes the shell takes every byte literally (newlines, $, `, \ included);
+		// a single quote is written as '\'' (close, escaped quote, reopen)
+		initCode += key + "='" + strings.ReplaceAll(value, "'", "'\\''") + "'\n"
 		initCode += "export " + key + "\n"
 	}
 	sshCert := envs.SSHCert()
